@@ -3,6 +3,11 @@
 import json, subprocess
 
 BUILT = {
+ "C17": dict(level="exploration",
+   technique="exhaustive enumeration of short file names over a hostile alphabet + rapid composed names, each evaluated in a child process per IO configuration against a reference name predicate and a scan of the real file system effects",
+   text="Every name up to length 5 (quick) / 6 (thorough) over {a, Z, 0, _, '.', '/', '\\', NUL, space, '~', 0xff}, bare and with .gr appended, is passed to load() and save() through repl.EvalStringWithOption in a child process whose extensions were initialised restricted or empty-only (once per process), with a working directory inside a scratch tree of sentinel files that print LEAK <path> when evaluated. Acceptance must equal a predicate written from the property and be independent of earlier requests (second pass in reversed order in a fresh child); an accepted save may only create cwd/<stem>.gr; after a rejected request the whole tree (names, sizes, hashes) must be unchanged; no sentinel other than cwd/<stem>.gr may ever be evaluated; exec/run must not exist; image.save may only create cwd/grol.png. The disabled configuration and an unrestricted positive control (the detector must see the escape) run too; rapid composes longer names from path fragments.",
+   note="Reads of non-sentinel files are not observable through output. No symlink is planted (a plain-named symlink is followed; that is about directory content, not names).",
+   ref="DESIGN.md section 3, C17"),
  "C19": dict(level="exploration",
    technique="model-based testing of generated attack sequences (every syntactic mutation path x every value type and size) combined with a registers on/off differential; oracle = the constant keeps its bound value until an explicit del",
    text="A constant is bound to one of 26 values (every scalar type, arrays and maps of 0..20 elements on both sides of the thresholds, nested containers, functions) and attacked by 3-14 generated attempts drawn from 36 forms: =, :=, same-value re-assignment, ++ / -- in all four forms, index / field assignment, del of an element, self-append, loop variable of each of the five loop forms, parameter of functions and lambdas, assignment from nested functions, loops and closures, func NAME(){} redefinition, mutation through an alias or a mutating function, and del + re-binding (which resets the model). After every attempt the constant read at top level must equal the model's value, any value printed for it by a non-failing attempt must be the model's, and error/no-error and output must agree between a session with registers and one without.",
